@@ -847,3 +847,309 @@ Proof. split; [apply Inv_init|]. split; [intros f; reflexivity|reflexivity]. Qed
 Theorem history_refines : forall n ops, guard_ops n minit ops = true ->
   Forall2 osim (runS n sinit ops) (runM n minit ops).
 Proof. intros. apply history_refines_from; auto. apply HInv_init. Qed.
+
+(* ---- consequences in property terms ---------------------------------------------------------------- *)
+(* k-th evaluation of the same code = first: evaluate e again and again in the state left by the previous
+   evaluation (only the output trace is reset, as Code.Eval's caller does) *)
+Fixpoint iterM (k n : nat) (st : state) (en : env) (o : list value) (e : sexp) : list obs :=
+  match k with
+  | O => []
+  | S k' => let (r, st') := evalM n (set_out st o) en e in (r, out st') :: iterM k' n st' en o e
+  end.
+Theorem reeval_stable : forall k n st ft en o e rS oS, Inv st -> Rel st ft ->
+  evalS n ft en o e = (rS, oS) -> comparable rS = true -> iterM k n st en o e = repeat (rS, oS) k.
+Proof.
+  induction k as [|k IH]; simpl; intros n st ft en o e rS oS I R E C; auto.
+  pose proof (good_set_out st o) as [T0 I0].
+  destruct (evalM_sim ft n (set_out st o) en e rS oS (I0 I) (same_tabs_rel _ _ _ T0 R) E) as (rM & st' & EM & [S1 _]).
+  rewrite EM. destruct (S1 C) as [-> ->]. pose proof (evalM_good n _ _ _ _ _ EM) as [T1 I1].
+  f_equal. eapply IH; eauto. eapply same_tabs_rel; [exact T1|]. eapply same_tabs_rel; eauto.
+Qed.
+
+(* compile-then-evaluate = evaluate the list form (both are what S says) *)
+Theorem compile_transparent : forall n st ft en e rS oS, Inv st -> Rel st ft ->
+  evalS n ft en (out st) e = (rS, oS) -> comparable rS = true ->
+  (exists st1, evalM n st en e = (rS, st1) /\ out st1 = oS) /\
+  (exists st2, evalM n (compile_slot st e) en e = (rS, st2) /\ out st2 = oS).
+Proof.
+  intros n st ft en e rS oS I R E C. split.
+  - destruct (evalM_sim ft n st en e rS oS I R E) as (rM & st1 & EM & [S1 _]).
+    destruct (S1 C) as [-> O]. eauto.
+  - pose proof (compile_slot_cgood e st I) as CG.
+    destruct (cgood_rel _ _ ft (compile_slot_cgood e st) I R) as [I' R'].
+    rewrite <- (cg_out _ _ CG) in E.
+    destruct (evalM_sim ft n _ en e rS oS I' R' E) as (rM & st2 & EM & [S1 _]).
+    destruct (S1 C) as [-> O]. eauto.
+Qed.
+
+(* redefinition between evaluations is seen by code that was already evaluated (and so compiled in place) *)
+Theorem late_binding : forall n st ft en e g ps body r0 st0 rS oS, Inv st -> Rel st ft ->
+  evalM n st en e = (r0, st0) ->
+  g_defun st0 g ps body = true ->
+  evalS n ((g, (ps, body)) :: ft) en (out st0) e = (rS, oS) -> comparable rS = true ->
+  exists st1, evalM n (defunM st0 g ps body) en e = (rS, st1) /\ out st1 = oS.
+Proof.
+  intros n st ft en e g ps body r0 st0 rS oS I R E0 G E C.
+  pose proof (evalM_good n _ _ _ _ _ E0) as [T0 I0].
+  destruct (defunM_step st0 ft g ps body (I0 I) (same_tabs_rel _ _ _ T0 R) G) as (I1 & R1 & O1).
+  rewrite <- O1 in E.
+  destruct (evalM_sim _ n _ en e rS oS I1 R1 E) as (rM & st1 & EM & [S1 _]).
+  destruct (S1 C) as [-> O]. eauto.
+Qed.
+
+(* ---- S depends on the table only through lookups; definition order of distinct names is irrelevant -- *)
+Lemma eval_argsS_ext : forall ev ev', (forall en o e, ev en o e = ev' en o e) ->
+  forall args en o, eval_argsS ev en o args = eval_argsS ev' en o args.
+Proof.
+  intros ev ev' H. induction args as [|a r IH]; simpl; intros; auto.
+  rewrite H. destruct (ev' en o a) as [[v| |] o1]; auto. rewrite IH. reflexivity.
+Qed.
+Lemma eval_bodyS_ext : forall ev ev', (forall en o e, ev en o e = ev' en o e) ->
+  forall forms en o v, eval_bodyS ev en o forms v = eval_bodyS ev' en o forms v.
+Proof.
+  intros ev ev' H. induction forms as [|a r IH]; simpl; intros; auto.
+  rewrite H. destruct (ev' en o a) as [[w| |] o1]; auto.
+Qed.
+Lemma eval_ifS_ext : forall ev ev', (forall en o e, ev en o e = ev' en o e) ->
+  forall args en o, eval_ifS ev en o args = eval_ifS ev' en o args.
+Proof.
+  intros ev ev' H args en o. unfold eval_ifS.
+  destruct args as [|c [|a [|b [|? ?]]]]; auto; rewrite H; destruct (ev' en o c) as [[v| |] o1]; auto;
+    destruct (truthy v); auto.
+Qed.
+Theorem evalS_ext : forall ft ft', (forall f, slookup f ft = slookup f ft') ->
+  forall n en o e, evalS n ft en o e = evalS n ft' en o e.
+Proof.
+  intros ft ft' H. induction n as [|n IH]; intros en o e; simpl; auto.
+  destruct e as [z|x|id xs]; auto. destruct xs as [|[z|f|i ys] args]; auto.
+  destruct (builtin_of f) as [b|].
+  - destruct b; try (rewrite (eval_argsS_ext _ _ IH); reflexivity).
+    apply eval_ifS_ext; auto.
+  - rewrite H. destruct (slookup f ft') as [[ps forms]|]; auto.
+    rewrite (eval_argsS_ext _ _ IH). destruct (eval_argsS (evalS n ft') en o args) as [[vs|r] o1]; auto.
+    destruct (Nat.ltb _ _); auto. apply eval_bodyS_ext; auto.
+Qed.
+
+Lemma slookup_app : forall {A} f (l1 l2 : list (string * A)),
+  slookup f (l1 ++ l2) = match slookup f l1 with Some v => Some v | None => slookup f l2 end.
+Proof. induction l1 as [|[k v] r IH]; simpl; intros; auto. destruct (String.eqb f k); auto. Qed.
+Lemma slookup_notin : forall {A} f (l : list (string * A)), ~ In f (map fst l) -> slookup f l = None.
+Proof.
+  induction l as [|[k v] r IH]; simpl; intros H; auto.
+  destruct (String.eqb f k) eqn:Q; [apply String.eqb_eq in Q; subst; tauto|]. apply IH. tauto.
+Qed.
+Lemma slookup_perm : forall {A} (l l' : list (string * A)), Permutation l l' -> NoDup (map fst l) ->
+  forall f, slookup f l = slookup f l'.
+Proof.
+  intros A l l' P. induction P; intros ND f; auto.
+  - destruct x as [k v]. simpl. inversion ND; subst. rewrite IHP; auto.
+  - destruct x as [k v], y as [k' v']. simpl. inversion ND as [|? ? N1 N2]; subst.
+    destruct (String.eqb f k') eqn:Q1, (String.eqb f k) eqn:Q2; auto.
+    apply String.eqb_eq in Q1, Q2. subst. simpl in N1. tauto.
+  - rewrite IHP1; auto. apply IHP2.
+    eapply Permutation_NoDup; [apply Permutation_map; exact P1|auto].
+Qed.
+
+(* the table S has after evaluating a sequence of definitions *)
+Fixpoint deftab (ds : list (string * def)) (ft : ftab) : ftab :=
+  match ds with [] => ft | d :: r => deftab r (d :: ft) end.
+Lemma deftab_rev : forall ds ft, deftab ds ft = rev ds ++ ft.
+Proof. induction ds as [|d r IH]; simpl; intros; auto. rewrite IH, <- app_assoc. reflexivity. Qed.
+Theorem deftab_order_independent : forall ds ds' ft, Permutation ds ds' -> NoDup (map fst ds) ->
+  forall f, slookup f (deftab ds ft) = slookup f (deftab ds' ft).
+Proof.
+  intros ds ds' ft P ND f. rewrite !deftab_rev, !slookup_app.
+  rewrite (slookup_perm (rev ds) (rev ds')); auto.
+  - rewrite <- !Permutation_rev. exact P.
+  - eapply Permutation_NoDup; [|exact ND]. apply Permutation_map. apply Permutation_rev.
+Qed.
+Theorem order_independent_S : forall ds ds' ft, Permutation ds ds' -> NoDup (map fst ds) ->
+  forall n en o e, evalS n (deftab ds ft) en o e = evalS n (deftab ds' ft) en o e.
+Proof. intros. apply evalS_ext. intros. apply deftab_order_independent; auto. Qed.
+
+(* ---- the same at the level of M: a block of definitions of distinct names, in any order ------------- *)
+Fixpoint defunsM (st : state) (ds : list (string * def)) : state :=
+  match ds with [] => st | (nm, (ps, body)) :: r => defunsM (defunM st nm ps body) r end.
+Fixpoint guard_defuns (st : state) (ds : list (string * def)) : bool :=
+  match ds with [] => true | (nm, (ps, body)) :: r => g_defun st nm ps body && guard_defuns (defunM st nm ps body) r end.
+Lemma defunsM_rel : forall ds st ft, Inv st -> Rel st ft -> guard_defuns st ds = true ->
+  Inv (defunsM st ds) /\ Rel (defunsM st ds) (deftab ds ft) /\ out (defunsM st ds) = out st.
+Proof.
+  induction ds as [|[nm [ps body]] r IH]; simpl; intros st ft I R G; auto.
+  apply andb_true_iff in G. destruct G as [G1 G2].
+  destruct (defunM_step st ft nm ps body I R G1) as (I' & R' & O').
+  destruct (IH _ _ I' R' G2) as (A & B & C). split; [auto|split; [auto|congruence]].
+Qed.
+Theorem order_independent_M : forall ds ds' st ft, Inv st -> Rel st ft ->
+  Permutation ds ds' -> NoDup (map fst ds) ->
+  guard_defuns st ds = true -> guard_defuns st ds' = true ->
+  forall n en e rS oS, evalS n (deftab ds ft) en (out st) e = (rS, oS) -> comparable rS = true ->
+  exists st1 st2, evalM n (defunsM st ds) en e = (rS, st1) /\ evalM n (defunsM st ds') en e = (rS, st2) /\
+                  out st1 = oS /\ out st2 = oS.
+Proof.
+  intros ds ds' st ft I R P ND G G' n en e rS oS E C.
+  destruct (defunsM_rel ds st ft I R G) as (I1 & R1 & O1).
+  destruct (defunsM_rel ds' st ft I R G') as (I2 & R2 & O2).
+  pose proof E as E'. rewrite (order_independent_S ds ds' ft P ND) in E'.
+  rewrite <- O1 in E. rewrite <- O2 in E'.
+  destruct (evalM_sim _ n _ en e rS oS I1 R1 E) as (r1 & st1 & EM1 & [S1 _]).
+  destruct (evalM_sim _ n _ en e rS oS I2 R2 E') as (r2 & st2 & EM2 & [S2 _]).
+  destruct (S1 C) as [-> ?]. destruct (S2 C) as [-> ?]. eauto 10.
+Qed.
+
+(* the guard holds by itself for a block of definitions of distinct names none of which has been defined
+   before (it may have been called before: a placeholder's creator holds the registered Lambda) *)
+Definition canon_or_new (st : state) (f : string) : Prop :=
+  match slookup f (funcs st) with None => True | Some s => slookup f (lambdas st) = Some s end.
+Lemma alloc_cg : forall st l, Inv st -> cg st (mkSt (heap st ++ [l]) (lambdas st) (funcs st) (marks st) (out st)).
+Proof.
+  intros st l I. constructor; simpl; auto.
+  - destruct I as [i1 i2 i3]. constructor; unfold hget; simpl.
+    + intros f s E. destruct (i1 _ _ E) as (c & l0 & ? & ? & ? & ?). exists c, l0.
+      repeat split; auto; apply nth_error_app_old; auto.
+    + intros id g a' N. destruct (i2 _ _ _ N) as (s & l0 & ? & ? & ? & ?). exists s, l0.
+      repeat split; auto; apply nth_error_app_old; auto.
+    + intros f c E. destruct (i3 _ _ E) as [S1 (l0 & ? & ?)]. split; auto. exists l0. split; auto.
+      apply nth_error_app_old; auto.
+  - unfold hget; simpl. intros. apply nth_error_app_old; auto.
+  - rewrite app_length; simpl; lia.
+Qed.
+Lemma defunM_canon_other : forall st nm ps body f, Inv st -> f <> nm -> canon_or_new st f ->
+  canon_or_new (defunM st nm ps body) f.
+Proof.
+  intros st nm ps body f I NE CN. unfold defunM.
+  set (newl := mkLam nm ps body false).
+  set (st1 := mkSt (heap st ++ [newl]) (lambdas st) (funcs st) (marks st) (out st)).
+  pose proof (alloc_cg st newl I) as C1. fold st1 in C1.
+  pose proof (fold_compile_cgood body st1 (cg_inv _ _ C1)) as C2.
+  set (st2 := fold_left compile_slot body st1) in *.
+  assert (Q : String.eqb f nm = false) by (apply String.eqb_neq; auto).
+  assert (CN2 : canon_or_new st2 f).
+  { unfold canon_or_new in *. destruct (slookup f (funcs st)) as [s|] eqn:F.
+    - rewrite (cg_funcs _ _ C2 _ _ (cg_funcs _ _ C1 _ _ F)).
+      apply (cg_lams _ _ C2). apply (cg_lams _ _ C1). auto.
+    - destruct (cg_new _ _ C2 f) as [N|(p & l & F2 & L2 & _)]; [exact F|rewrite N; auto|].
+      rewrite F2. auto. }
+  unfold canon_or_new in *.
+  destruct (slookup nm (lambdas st2)); simpl; rewrite Q; auto.
+Qed.
+Lemma fresh_defs_guarded : forall ds st ft, Inv st -> Rel st ft -> NoDup (map fst ds) ->
+  (forall f, In f (map fst ds) -> canon_or_new st f) -> guard_defuns st ds = true.
+Proof.
+  induction ds as [|[nm [ps body]] r IH]; simpl; intros st ft I R ND CN; auto.
+  inversion ND as [|? ? N1 N2]; subst.
+  assert (G1 : g_defun st nm ps body = true).
+  { unfold g_defun. pose proof (CN nm (or_introl eq_refl)) as C. unfold canon_or_new in C.
+    destruct (slookup nm (funcs st)) as [s|]; auto. rewrite C, Nat.eqb_refl. reflexivity. }
+  rewrite G1. simpl.
+  destruct (defunM_step st ft nm ps body I R G1) as (I' & R' & _).
+  apply (IH _ _ I' R' N2). intros f Hf. apply defunM_canon_other; auto.
+  intros ->. contradiction.
+Qed.
+(* in particular from the empty state: any order of a block of distinct definitions is inside the guard *)
+Corollary fresh_program_guarded : forall ds, NoDup (map fst ds) -> guard_defuns init ds = true.
+Proof.
+  intros ds ND. apply (fresh_defs_guarded ds init []); auto using Inv_init.
+  - intros f; reflexivity.
+  - intros f _. unfold canon_or_new. reflexivity.
+Qed.
+
+(* ---- refutations (the faithful model violates S outside the guard) and non-vacuity --------------- *)
+Open Scope string_scope.
+Definition dfn (id : nat) (name : string) (pid : nat) (ps : list string) (body : list sexp) : sexp :=
+  SList id (SSym "defun" :: SSym name :: SList pid (map SSym ps) :: body).
+
+(* (defun f () (g)) (defun g () 1) (defun h () (g)) (defun g () 2) (h)
+   f is compiled before g exists (placeholder); g's creator then holds a Lambda that is not the registered
+   one; h's call of g is compiled with it; the second definition of g patches only the registered one *)
+Definition stale_ops : list op :=
+  [OLoad 0 [dfn 1 "f" 2 [] [SList 3 [SSym "g"]];
+            dfn 4 "g" 5 [] [SList 6 [SSym "progn"; SInt 1]];
+            dfn 7 "h" 8 [] [SList 9 [SSym "g"]];
+            dfn 10 "g" 11 [] [SList 12 [SSym "progn"; SInt 2]];
+            SList 13 [SSym "h"]];
+   ORun 0].
+Lemma stale_lambda_witness :
+  guard_ops 50 minit stale_ops = false /\
+  runS 50 sinit stale_ops = [(Val (VInt 2), [])] /\
+  runM 50 minit stale_ops = [(Val (VInt 1), [])].
+Proof. vm_compute. auto. Qed.
+Theorem refinement_needs_guard_refuted :
+  ~ (forall n ops, Forall2 osim (runS n sinit ops) (runM n minit ops)).
+Proof.
+  intros H. specialize (H 50 stale_ops).
+  destruct stale_lambda_witness as (_ & S1 & M1). rewrite S1, M1 in H.
+  inversion H as [|? ? ? ? [O _] _]; subst. specialize (O eq_refl). discriminate.
+Qed.
+(* without a forward reference: two redefinitions are needed
+   (defun g () 1) (defun g () 2) (defun h () (g)) (defun g () 3) (h) *)
+Definition stale_ops2 : list op :=
+  [OLoad 0 [dfn 1 "g" 2 [] [SList 3 [SSym "progn"; SInt 1]];
+            dfn 4 "g" 5 [] [SList 6 [SSym "progn"; SInt 2]];
+            dfn 7 "h" 8 [] [SList 9 [SSym "g"]];
+            dfn 10 "g" 11 [] [SList 12 [SSym "progn"; SInt 3]];
+            SList 13 [SSym "h"]];
+   ORun 0].
+Lemma stale_lambda_witness2 :
+  guard_ops 50 minit stale_ops2 = false /\
+  runS 50 sinit stale_ops2 = [(Val (VInt 3), [])] /\
+  runM 50 minit stale_ops2 = [(Val (VInt 2), [])].
+Proof. vm_compute. auto. Qed.
+
+(* (nodef (emit 5)) compiled: the placeholder call evaluates its argument, then signals undefined-function;
+   (nodef (+ 1 (list 2))) compiled: the error in the argument masks undefined-function *)
+Definition undef_ops (arg : sexp) : list op := [OLoad 0 [SList 1 [SSym "nodef"; arg]]; OCompile 0; ORun 0].
+Lemma undefined_args_first_witness :
+  guard_ops 50 minit (undef_ops (SList 2 [SSym "emit"; SInt 5])) = true /\
+  runS 50 sinit (undef_ops (SList 2 [SSym "emit"; SInt 5])) = [(Err EUndefined, [])] /\
+  runM 50 minit (undef_ops (SList 2 [SSym "emit"; SInt 5])) = [(Err EUndefined, [VInt 5])] /\
+  runS 50 sinit (undef_ops (SList 2 [SSym "+"; SInt 1; SList 3 [SSym "list"; SInt 2]])) = [(Err EUndefined, [])] /\
+  runM 50 minit (undef_ops (SList 2 [SSym "+"; SInt 1; SList 3 [SSym "list"; SInt 2]])) = [(Err EType, [])].
+Proof. vm_compute. auto 10. Qed.
+Theorem undefined_call_equal_refuted :
+  ~ (forall n ops, guard_ops n minit ops = true -> runM n minit ops = runS n sinit ops).
+Proof.
+  intros H. specialize (H 50 (undef_ops (SList 2 [SSym "emit"; SInt 5]))).
+  destruct undefined_args_first_witness as (G & S1 & M1 & _). rewrite S1, M1 in H. specialize (H G). discriminate.
+Qed.
+
+(* non-vacuity: a guarded history with a forward reference (caller before callee), compilation, repeated
+   evaluation of the same code object, a redefinition between evaluations; all outcomes are values and
+   M = S; the state has compiled slots and a patched placeholder *)
+Definition demo_ops : list op :=
+  [OLoad 0 [dfn 1 "caller" 2 ["a"] [SList 3 [SSym "callee"; SSym "a"; SInt 2]];
+            dfn 4 "callee" 5 ["p"; "q"] [SList 6 [SSym "list"; SSym "p"; SList 7 [SSym "emit"; SSym "q"]]]];
+   ORun 0;
+   OLoad 1 [SList 8 [SSym "caller"; SInt 7]];
+   OCompile 1; ORun 1; ORun 1;
+   OLoad 2 [dfn 9 "caller" 10 ["a"] [SList 11 [SSym "callee"; SSym "a"; SInt 3]]];
+   ORun 2; ORun 1].
+Example demo_guarded :
+  guard_ops 50 minit demo_ops = true /\
+  runM 50 minit demo_ops = runS 50 sinit demo_ops /\
+  runS 50 sinit demo_ops =
+    [(Val (VSym "callee"), []);
+     (Val (VList [VInt 7; VInt 2]), [VInt 2]); (Val (VList [VInt 7; VInt 2]), [VInt 2]);
+     (Val (VSym "caller"), []);
+     (Val (VList [VInt 7; VInt 3]), [VInt 3])].
+Proof. vm_compute. auto. Qed.
+Definition demo_state : state := ms (fold_left (fun m o => fst (stepM 50 m o)) demo_ops minit).
+Example demo_state_nontrivial :
+  List.length (marks demo_state) = 5 /\ List.length (heap demo_state) = 4 /\
+  slookup "callee" (lambdas demo_state) = Some 1 /\ slookup "callee" (funcs demo_state) = Some 2 /\
+  option_map l_place (nth_error (heap demo_state) 1) = Some false.
+Proof. vm_compute. auto 10. Qed.
+(* hypotheses of the expression-level theorems are satisfiable in that state *)
+Example demo_inv : Inv demo_state /\ Rel demo_state
+   [("caller", (["a"], [SList 11 [SSym "callee"; SSym "a"; SInt 3]]));
+    ("callee", (["p"; "q"], [SList 6 [SSym "list"; SSym "p"; SList 7 [SSym "emit"; SSym "q"]]]));
+    ("caller", (["a"], [SList 3 [SSym "callee"; SSym "a"; SInt 2]]))].
+Proof.
+  assert (H : forall ops m s, HInv m s -> guard_ops 50 m ops = true ->
+     HInv (fold_left (fun m o => fst (stepM 50 m o)) ops m) (fold_left (fun s o => fst (stepS 50 s o)) ops s)).
+  { induction ops as [|o r IH]; simpl; intros m s Hm G; auto.
+    apply andb_true_iff in G. destruct G as [G1 G2]. apply IH; auto. apply step_sim; auto. }
+  destruct demo_guarded as (G & _).
+  destruct (H demo_ops minit sinit HInv_init G) as (I & R & _). split; [exact I|].
+  exact R.
+Qed.
